@@ -119,6 +119,44 @@ fn gen_episode_inner(verif_seed: u64, index: u64) -> Episode {
         tasks.push(ops);
     }
 
+    // Herd on first use (one multi-task episode in seven): every task starts with the SAME few
+    // operations - the same build, then the same kind of render of it - before going its own
+    // way, so that whatever the crate sets up lazily per version, per width or per renderer kind
+    // is set up by several threads at once (in a cold process image, for the first time ever).
+    if n_tasks >= 2 && rng.chance(1, 7) {
+        let mut prefix: Vec<OpSpec> = Vec::new();
+        let version = *rng.pick(&[1u8, 1, 2, 3, 4, 7]);
+        let forced = rng.chance(2, 3);
+        prefix.push(plain(Op::BuildFresh {
+            input: rng.usize_below(inputs.len()) as u8,
+            mode: None,
+            ecl: if forced { Some(0) } else { None },
+            version: if forced { Some(version) } else { None },
+            mask: if rng.chance(1, 3) { Some(rng.below(8) as u8) } else { None },
+            out: 0,
+        }));
+        let n_renders = rng.range(1, 2);
+        for _ in 0..n_renders {
+            match rng.weighted(&[5, 4, 2, 2]) {
+                0 => prefix.push(plain(Op::Term { qr: QrRef::Local(0), print: false })),
+                1 => {
+                    prefix.push(plain(Op::NewSvg { slot: 0 }));
+                    prefix.push(plain(Op::SvgRender { slot: 0, qr: QrRef::Local(0) }));
+                }
+                2 => {
+                    prefix.push(plain(Op::NewImg { slot: 0 }));
+                    prefix.push(plain(Op::ImgRender { slot: 0, qr: QrRef::Local(0), pixmap: false }));
+                }
+                _ => {}
+            }
+        }
+        for t in tasks.iter_mut() {
+            let mut ops = prefix.clone();
+            ops.append(t);
+            *t = ops;
+        }
+    }
+
     // scheduling policy
     let policy = if n_tasks == 1 {
         Policy::Sequential
